@@ -252,6 +252,30 @@ theorem str_roundtrip_rule_cross_ambient (k k' : Int) (a : RRule.Args) (r : RRul
       RRule.constructW k' (backArgs (RRule.origArgs (RRule.resolveW k a) r) pa) = .ok r :=
   parse_toStr_constructs_same_rule_cross k k' a r h hsp hne hpr hf hw o hu hfs hc kw
 
+/-- **the property's first sentence at the level of occurrences** (C13 ∘ C01's iteration model): for every rule with a NAIVE
+    start (`a.tz = 0`), built under any ambient first weekday `k`, `rrulestr(str(rule))` is a single rule whose DTSTART value
+    is the printed start WITHOUT any zone parameter, and the arguments it hands to the constructor (`backArgsNaive`: naive
+    start) build a rule whose iteration equals the rule's for EVERY fuel — the same occurrences, in the same order, ending
+    the same way (`RRule.iter`: the values yielded during the first `fuel` periods and the generator's status).
+    Hypotheses as in `str_roundtrip_rule_ambient` (NoEmptyBy = the known finding D-C13-empty-by-list; the two date texts are
+    read back by `parser.parse`: C02's `parse_render_compact` for the form `YYYYMMDDTHHMMSS`, tied here by the correspondence). -/
+theorem str_roundtrip_occurrences (k : Int) (a : RRule.Args) (r : RRule.Rule) (h : RRule.constructW k a = .ok r) (hnaive : a.tz = 0)
+    (hsp : a.bysetpos ≠ some [])
+    (hne : NoEmptyBy (RRule.origArgs (RRule.resolveW k a) r)) (hpr : Printable (strInOf k (RRule.origArgs (RRule.resolveW k a) r)))
+    (hf : 0 ≤ (RRule.origArgs (RRule.resolveW k a) r).freq)
+    (o : Opts) (hu : o.unfold = false) (hfs : o.forceset = false) (hc : o.compatible = false) (kw : Bool) :
+    ∃ pa r', parseRfc (toStr (strInOf k (RRule.origArgs (RRule.resolveW k a) r))) o kw =
+        .ok (.rule pa (some (showDT (sixOf r.dtstart), [], o.po)) o.cache) ∧
+      RRule.constructW k (backArgsNaive (RRule.origArgs (RRule.resolveW k a) r) pa) = .ok r' ∧
+      ∀ fuel, RRule.iter r' fuel = RRule.iter r fuel ∧ RRule.iterDT r' fuel = RRule.iterDT r fuel :=
+  same_occurrences_ambient k a r h hnaive hsp hne hpr hf o hu hfs hc kw
+
+-- non-vacuity: the witness rule (naive start) under ambient 6 really yields its four occurrences Aug 5, 10, 19, 24 1997
+example : ambientWitness.tz = 0 ∧
+    (do let r ← RRule.constructW 6 ambientWitness
+        pure ((RRule.iterDT r 6).1.map (fun (d : DT) => (d.m, d.d)))) = .ok [(8, 5), (8, 10), (8, 19), (8, 24)] := by
+  decide +kernel
+
 /-- the former counterexample of D-C13-ambient-wkst as a regression fact: WEEKLY, interval 2, BYDAY=TU,SU, explicit wkst=MO,
     ambient 6: the text now carries `WKST=MO` (`some 0`), the rebuilt rule has week start 0 and is the same rule
     (before the repair: `(0, 6, …, false)`) -/
